@@ -228,7 +228,7 @@ pub fn run(rep: &mut Report) {
     }
     rep.require(rep.counter("startup_rotations_observed") > 100, "fewer than 100 start-up rotations observed");
     rep.require(rep.counter("startup_without_rotation_observed") > 50, "too few start-ups below min_size observed");
-    rep.require(rep.set_size("first_writer") >= 3, "concurrent first appends were always won by the same thread");
+    rep.require(rep.set_size("first_writer") >= 2, "concurrent first appends were always won by the same thread");
 }
 
 /// Tiny concurrent first-append run for Miri.
